@@ -12,7 +12,7 @@ RULE = ('cases = 15 built-in forms x per-form parameter lattice (negative, zero,
         'x 4 routes {potentialfunctions.f(r, p..), potentialforms.f(p..)(r), "as.NAME p.." in [Pair], as.NAME(r, p..) inside a '
         '[Potential-Form] formula (literal and positionally bound arguments)}; every lattice point evaluated; non-trivial = '
         'parameter vector with pairwise distinct non-zero components (so a swapped binding changes the value)')
-RULE += "; polynomial orders 0..14; -1 / -2 parameter pairs; number spellings (25e-1, +1.5, .5, 5.); five spellings of as.NAME( inside formulas (blank before the bracket, upper case, bracket on a continuation line); a fifth route: as.NAME in [Pair] of a file that also defines the user's own form with the bare name NAME; integer-typed separations"
+RULE += "; polynomial orders 0..14; -1 / -2 parameter pairs; number spellings (25e-1, +1.5, .5, 5.); five spellings of as.NAME( inside formulas (blank before the bracket, upper case, bracket on a continuation line); a fifth route: as.NAME in [Pair] of a file that also defines the user's own form with the bare name NAME; integer-typed separations; the potential functions called with keyword arguments in reversed / rotated order, through functools.partial, and partly positional"
 ASSUMPTIONS = [
     'documented closed forms from docs/reference/potential_forms.rst; constants of coul (epsilon_0 = 0.0055264), zbl and Tang-Toennies (0.5292 bohr, 27.211 eV) as in DESIGN 2.3',
     'tolerance 1e-12 x (sum of the absolute values of the terms of the formula): absorbs legitimate re-association, not a changed constant, exponent or binding',
@@ -166,6 +166,22 @@ def route_values(name, vecs, rs):
     if name != 'buck4':
         f = getattr(pf, name)
         out['function'] = [[ev(f, r, *p) for r in rs] for p in vecs]
+        # the same functions called with keyword arguments (their documented parameter names), written in another order than the signature
+        import inspect, functools
+        try:
+            names = [q.name for q in inspect.signature(f).parameters.values() if q.kind == q.POSITIONAL_OR_KEYWORD]
+        except (TypeError, ValueError):
+            names = []
+        if len(names) >= 2 and all(len(p) == len(names) - 1 for p in vecs):
+            def kws(p, order):
+                items = list(zip(names[1:], p))
+                items = items[::-1] if order == 'reversed' else items[1:] + items[:1]
+                return dict(items)
+            out['function, keywords reversed'] = [[ev(lambda r_, kw=kws(p, 'reversed'): f(r_, **kw), r) for r in rs] for p in vecs]
+            out['function, keywords rotated, r by keyword'] = [[ev(lambda r_, kw=kws(p, 'rotated'): f(**dict(kw, r=r_)), r) for r in rs] for p in vecs]
+            out['functools.partial with keywords'] = [[ev(functools.partial(f, **kws(p, 'reversed')), r) for r in rs] for p in vecs]
+            if len(names) >= 3:
+                out['function, first parameter positional, rest keywords reversed'] = [[ev(lambda r_, kw=dict(list(zip(names[2:], p[1:]))[::-1]): f(r_, p[0], **kw), r) for r in rs] for p in vecs]
     fac = getattr(pforms, name)
     out['factory'] = [[ev(fac(*p), r) for r in rs] for p in vecs]
     # potable routes: one file, one [Pair] entry per parameter vector
